@@ -18,7 +18,7 @@ property's own predicate on the OBSERVED values, independently of the cached lev
 * laws: |a∨b| + |a∧b| = |a| + |b| and |¬a| = 2ⁿ − |a| on the observed numbers.
 -/
 namespace B.Drive.C09
-open B B.Drive
+open B B.Drive B.Count
 
 def maxTT : Nat := 12
 
